@@ -21,7 +21,10 @@
      mode 1  reb_simulationarchive_create_from_file_with_messages on a caller-owned (zeroed) handle  (what Python uses)
      mode 2  reb_simulationarchive_init_from_buffer_with_messages on the file contents
      mode 3  reb_simulation_create_from_file(img, -1)
-   output:  entry <mode> warnings=<w> nblobs=<n> inf=<0|1>   |   entry 3 sim=<null|ok> t=<hex> */
+     mode 4  reb_simulation_create_from_file(img,-1), then reb_simulation_copy and reb_simulation_diff_char(sim, copy)
+     mode 5  reb_simulationarchive_create_from_file_with_messages twice, the second time with the first handle as sa_index
+   output:  entry <mode> warnings=<w> nblobs=<n> inf=<0|1>   |   entry 3 sim=<null|ok> t=<hex>
+            entry 4 sim=<null|ok> t=<hex> copy=<null|ok> copy_t=<hex> difflen=<n> */
 static int other(const char* img, int mode){
     enum reb_simulation_binary_error_codes w = REB_SIMULATION_BINARY_WARNING_NONE;
     if (mode==3){
@@ -34,9 +37,35 @@ static int other(const char* img, int mode){
         printf("done\n");
         return 0;
     }
+    if (mode==4){
+        struct reb_simulation* r = reb_simulation_create_from_file((char*)img, -1);
+        if (!r){ printf("entry 4 sim=null t=0 copy=null copy_t=0 difflen=0\ndone\n"); return 0; }
+        uint64_t tb; memcpy(&tb,&(r->t),8);
+        struct reb_simulation* cp = reb_simulation_copy(r);
+        uint64_t tc = 0; long dl = -1;
+        if (cp){
+            memcpy(&tc,&(cp->t),8);
+            char* txt = reb_simulation_diff_char(r, cp);
+            if (txt){ dl = (long)strlen(txt); free(txt); }
+        }
+        printf("entry 4 sim=ok t=%016llx copy=%s copy_t=%016llx difflen=%ld\n",(unsigned long long)tb, cp?"ok":"null",(unsigned long long)tc, dl);
+        fflush(stdout);
+        if (cp) reb_simulation_free(cp);
+        reb_simulation_free(r);
+        printf("done\n");
+        return 0;
+    }
     struct reb_simulationarchive* sa = calloc(1,sizeof(struct reb_simulationarchive));
+    struct reb_simulationarchive* sa0 = NULL;
     char* buf = NULL;
-    if (mode==1){
+    if (mode==5){
+        sa0 = calloc(1,sizeof(struct reb_simulationarchive));
+        reb_simulationarchive_create_from_file_with_messages(sa0, img, NULL, &w);
+        if (!(w & (REB_SIMULATION_BINARY_ERROR_NOFILE|REB_SIMULATION_BINARY_ERROR_SEEK|REB_SIMULATION_BINARY_ERROR_OLD))){
+            w = REB_SIMULATION_BINARY_WARNING_NONE;
+            reb_simulationarchive_create_from_file_with_messages(sa, img, sa0, &w);
+        }
+    }else if (mode==1){
         reb_simulationarchive_create_from_file_with_messages(sa, img, NULL, &w);
     }else{
         FILE* f = fopen(img,"rb"); if (!f) return 3;
@@ -55,6 +84,7 @@ static int other(const char* img, int mode){
         }
     }
     reb_simulationarchive_free(sa);   /* the caller owns the handle in every case */
+    if (sa0) reb_simulationarchive_free(sa0);
     free(buf);
     printf("done\n");
     return 0;
